@@ -375,9 +375,16 @@ Section PayloadFacts.
     exists l, udp_send plen mtu mac d = SOk l.
   Proof.
     intros mtu mac d Hl Hm. unfold udp_send.
-    assert (E1 : (65535 <? plen (d_payload d) + 8) = false) by (apply Z.ltb_ge; lia).
-    assert (E2 : (65535 <? plen (d_payload d) + 8 + 20) = false) by (apply Z.ltb_ge; lia).
-    assert (E3 : (mtu <? plen (d_payload d) + 28) = false) by (apply Z.ltb_ge; lia).
+    (* explicit order reasoning instead of lia: keeps Print Assumptions cheap *)
+    assert (HL : plen (d_payload d) <= 65507).
+    { eapply Z.le_trans; [apply Hl|]. change 65507 with (65535 - 28). apply Z.sub_le_mono_r. exact Hm. }
+    assert (E1 : (65535 <? plen (d_payload d) + 8) = false).
+    { apply Z.ltb_ge. apply Z.le_trans with (65507 + 8); [apply Z.add_le_mono_r; exact HL | apply Z.leb_le; reflexivity]. }
+    assert (E2 : (65535 <? plen (d_payload d) + 8 + 20) = false).
+    { apply Z.ltb_ge. apply Z.le_trans with (65507 + 8 + 20);
+        [apply Z.add_le_mono_r; apply Z.add_le_mono_r; exact HL | apply Z.leb_le; reflexivity]. }
+    assert (E3 : (mtu <? plen (d_payload d) + 28) = false).
+    { apply Z.ltb_ge. apply Z.le_add_le_sub_r. apply Hl. }
     rewrite E1, E2, E3.
     destruct (fst (d_dst d) =? BCAST); [eexists; reflexivity|].
     destruct (is_loopback (fst (d_dst d))); eexists; reflexivity.
@@ -390,7 +397,8 @@ Section PayloadFacts.
     intros mtu mac d Hl Hm Hlo l. unfold udp_send.
     destruct (65535 <? plen (d_payload d) + 8); [discriminate|].
     destruct (65535 <? plen (d_payload d) + 8 + 20); [discriminate|].
-    assert (E3 : (mtu <? plen (d_payload d) + 28) = true) by (apply Z.ltb_lt; lia).
+    assert (E3 : (mtu <? plen (d_payload d) + 28) = true).
+    { apply Z.ltb_lt. apply Z.lt_sub_lt_add_r. exact Hl. }
     rewrite E3, Hlo. destruct (fst (d_dst d) =? BCAST); discriminate.
   Qed.
 
